@@ -78,14 +78,20 @@ package electricpb
 //@   ensures [kept] old(modeOf(o).Id) == old(modeOf(n).Id) ==> modeOf(n).StartTime == old(modeOf(n).StartTime)
 //@   ensures [id-kept] modeOf(n).Id == old(modeOf(n).Id) && modeOf(o).Id == old(modeOf(o).Id)
 //@
-//@ // only a mode that exists can become active
+//@ // only a mode that exists can become active.  C14: every accepted change is ONE write of the active-mode register and
+//@ // the answer is that write's result (the message now stored, which is what the next GetActiveMode reads): no path
+//@ // answers with anything else, e.g. with the mode's definition from the collection
+//@ property C19 C14
 //@ func (*Model).changeActiveMode(id) (res, err)
 //@   option locks caller
 //@   requires wfModel(recv) && heldW(recv.mu)
 //@   track Set
-//@   ensures [unknown] !old(has(recv.modes.byId, keyOfModes(recv, id))) ==> err != nil && res == nil && calls(Set) == old(calls(Set))
-//@   ensures [known] old(has(recv.modes.byId, keyOfModes(recv, id))) ==> calls(Set) == old(calls(Set)) + 1
+//@   ensures [unknown@C19] !old(has(recv.modes.byId, keyOfModes(recv, id))) ==> err != nil && res == nil && calls(Set) == old(calls(Set))
+//@   ensures [known@C19+C14] old(has(recv.modes.byId, keyOfModes(recv, id))) ==> calls(Set) == old(calls(Set)) + 1
+//@   ensures [answer@C14] err == nil ==> calls(Set) == old(calls(Set)) + 1 && istype(lastcall(Set, 0), *traits.ElectricMode) && res == modeOf(lastcall(Set, 0))
+//@   ensures [rejected@C14] err != nil ==> res == nil
 //@ pure func keyOfModes(m, id) = m.modes.config.idInterceptor == nil ? id : m.modes.config.idInterceptor(id)
+//@ property C19
 //@
 //@ func (*Model).SetActiveMode(mode) (err)
 //@   requires wfModel(recv) && mode != nil && mode != modeOf(recv.activeMode.value)     // the caller's own message, not the stored one
@@ -142,12 +148,14 @@ package electricpb
 //@ // changed by id.  A request without an id is rejected before the model is asked; otherwise the id reaches the model
 //@ // unchanged and the model's verdict (the stored mode, or the error) goes back unchanged ----
 //@ func (*Model).ChangeActiveMode(id) (res, err)
-//@   trusted
-//@   option opaque
+//@   requires wfModel(recv)
+//@   track changeActiveMode
+//@   ensures [delegated] calls(changeActiveMode) == old(calls(changeActiveMode)) + 1 && lastarg(changeActiveMode, 1) == id && res == lastcall(changeActiveMode, 0) && err == lastcall(changeActiveMode, 1)
+//@   ensures [unlocked] !held(recv.mu)
 //@   modifies all
 //@
 //@ func (*ModelServer).UpdateActiveMode(ctx, request) (res, err)
-//@   requires recv != nil && recv.model != nil
+//@   requires recv != nil && wfModel(recv.model)
 //@   track ChangeActiveMode
 //@   letold noid := request == nil || request.ActiveMode == nil || request.ActiveMode.Id == ""
 //@   letold id := request.ActiveMode.Id
